@@ -671,6 +671,13 @@ func (b *builder) buildC12() {
 	if b.tier == "thorough" && b.r.Chance(1, 4) {
 		uses = b.r.Range(8, 30)
 	}
+	// large caller arrays with header blocks that fill them (array sizes beyond any
+	// small constant a reset routine might assume)
+	huge := kind == "msg" && b.r.Chance(1, 25)
+	if huge {
+		cfg.HdrCap = b.r.PickInt(66, 70, 100, 130, 260)
+		uses = b.r.Range(2, 4)
+	}
 	resetBy := b.r.Intn(2)
 	var plans []connPlan
 	t := int64(0)
@@ -679,6 +686,9 @@ func (b *builder) buildC12() {
 		if kind == "msg" {
 			c = Conn{Cfg: cfg}
 			o := gen.MsgOpts{Request: -1, CL: gen.CLAny, BodyMax: 100, WildNumbers: b.r.Chance(1, 5), MaxHdrs: b.r.PickInt(0, 3, 8)}
+			if huge {
+				o.MaxHdrs, o.ManyHdrs, o.ManyMax = 0, true, cfg.HdrCap+40
+			}
 			b.msgStream(&c, 35, o, 3)
 			if b.r.Chance(1, 5) {
 				c.Junk = b.junk(10)
@@ -689,6 +699,16 @@ func (b *builder) buildC12() {
 		}
 		c.Obj = 0
 		c.ResetBy = resetBy
+		if resetBy == sut.ByInit && i > 0 && b.r.Chance(1, 2) {
+			// the init operation may hand the object other arrays (or none) than it had before
+			c.Cfg.HdrCap = b.capKnob(24)
+			c.Cfg.ConCap = b.capKnob(6)
+			c.Cfg.ParCap = b.capKnob(5)
+			c.Cfg.Flags = b.sc.Conns[0].Cfg.Flags
+			if kind == "msg" {
+				c.Cfg.Flags = uint(b.r.Intn(4))
+			}
+		}
 		c.Compact = b.r.Chance(1, 2)
 		limitStream(&c)
 		s := c.Stream()
@@ -720,6 +740,11 @@ func (b *builder) buildC13() {
 		c.Cfg.ParCap = b.r.PickInt(-1, 0, 1, 2, 3)
 	}
 	c.ShadowAmple = true
+	if b.r.Chance(1, 4) {
+		// a re-used object: the caller's windows must survive Reset()/Init() too
+		c.Obj = 0
+		c.ResetBy = b.r.Intn(2)
+	}
 	if b.r.Chance(1, 5) {
 		c.Junk = b.junk(12)
 	}
